@@ -183,7 +183,8 @@ CHECKS = {
              "C06_f3_repaired), and independent of the reporter (diagnostics on/off); matching!() accepts everything; packing and AsRef coercions are views. Tied to /repo on every run by compiling ~420 generated matching! "
              "invocations with the real macro and evaluating them over their whole argument domain unordered, ordered, and next to a literal Rust match compiled by rustc: model, spec and "
              "implementation must agree. "
-             "Runtime half: which matchers the runtime consults for a call and when it collects diagnostics (theorems C06_runtime_consults_like_a_match, C06_diagnostics_only_after_the_decision, C06_ordered_call_consults_one_matcher about Model/Run.v matcher_trace), tied by logging every matcher invocation of the real runtime (event callm).",
+             "Runtime half: which matchers the runtime consults for a call and when it collects diagnostics (theorems C06_runtime_consults_like_a_match, C06_diagnostics_only_after_the_decision, C06_ordered_call_consults_one_matcher about Model/Run.v matcher_trace), tied by logging every matcher invocation of the real runtime (event callm). "
+             "`!=` is PartialEq::ne, user code that need not be the negation of eq: spec and model compare through vcmp, the harness struct S overrides ne.",
         design_ref="DESIGN.md section 7, C06",
         technique="Coq proof over an executable macro model (compile = rust_match) + generated-program co-execution with rustc's own match as oracle"),
     "C15": dict(
